@@ -2,7 +2,9 @@ package main
 
 import (
 	"bytes"
+	"encoding/json"
 	"fmt"
+	"github.com/robfig/soy/soyhtml"
 	"regexp"
 	"sort"
 	"strings"
@@ -244,6 +246,77 @@ func checkC14(c *Ctx) {
 			}
 		}
 	}
+	// ---- Part 2b: Soy variable and param names that are JavaScript reserved words or names the
+	// generator itself uses: the generated identifiers must stay legal and must not capture them ----
+	idents := []string{"class", "default", "var", "new", "this", "function", "return", "delete", "in", "typeof", "void", "with", "switch", "case", "if", "else", "for", "while", "do",
+		"break", "continue", "try", "catch", "finally", "throw", "instanceof", "null", "true", "false", "undefined", "enum", "export", "import", "super", "const", "let", "static", "yield", "await",
+		"implements", "interface", "package", "private", "protected", "public", "arguments", "eval", "NaN", "Infinity",
+		"output", "opt_data", "opt_ijData", "opt_sb", "opt_ignored", "soy", "goog", "data", "ijData", "msg", "msg_s", "MSG_UNNAMED", "x1", "output1", "self", "window", "Object", "String", "Array"}
+	for _, id := range idents {
+		for _, form := range []string{"let-value", "let-block", "foreach", "for-range", "param", "all"} {
+			if !c.Mine() {
+				continue
+			}
+			var body, doc, want string
+			switch form {
+			case "let-value":
+				body, want = "{let $"+id+": 'v' /}[{$"+id+"}]", "[v]"
+			case "let-block":
+				body, want = "{let $"+id+"}b{/let}[{$"+id+"}]", "[b]"
+			case "foreach":
+				body, want = "{foreach $"+id+" in ['p', 'q']}[{$"+id+"}]{/foreach}", "[p][q]"
+			case "for-range":
+				body, want = "{for $"+id+" in range(2)}[{$"+id+"}]{/for}", "[0][1]"
+			case "param":
+				doc, body, want = " * @param "+id+"\n", "[{$"+id+"}]{call .inner}{param "+id+": $"+id+" + 'c' /}{/call}", "[P]<Pc>"
+			case "all":
+				doc, body, want = " * @param "+id+"\n", "[{$"+id+"}]{let $"+id+": $"+id+" + 'l' /}[{$"+id+"}]{foreach $"+id+" in [$"+id+" + 'f']}[{$"+id+"}]{/foreach}[{$"+id+"}]", "[P][Pl][Plf][Pl]"
+			}
+			src := "{namespace idn}\n/**\n" + doc + " */\n{template .t}\n" + body + "\n{/template}\n/** @param " + id + " */\n{template .inner}\n<{$" + id + "}>\n{/template}\n"
+			cs := c14case{Files: map[string]string{"i.soy": src}, Origin: "identifier " + form}
+			key := "ident\x00" + form + "\x00" + id
+			reg, es5, es6, cerr, gerr, _ := genJS([]string{"i.soy"}, map[string]string{"i.soy": src}, nil)
+			if cerr != nil {
+				// the compiler may refuse a name (none does today); nothing is generated then.
+				c.Observe(key, "rejected")
+				c.Count("identifier_rejected_by_compiler", 1)
+				continue
+			}
+			c.Nontrivial()
+			if gerr != nil {
+				c.Observe(key, "generator error")
+				c.Violate("JavaScript is generated for every accepted bundle", "mismatch", "ident-jsgen:"+form, cs, "JavaScript", gerr.Error())
+				continue
+			}
+			var gobuf bytes.Buffer
+			if reg != nil {
+				if err := soyhtml.NewTofu(reg).Render(&gobuf, "idn.t", map[string]interface{}{id: "P"}); err != nil || gobuf.String() != want {
+					// the Go side is not this property's business; keep the JS oracle independent of it.
+					c.Count("identifier_go_render_differs", 1)
+				}
+			}
+			vm, _ := newJSVM()
+			got := ""
+			if _, err := jsRun(vm, es5["i.soy"]); err != nil {
+				got = "load error: " + err.Error()
+			} else {
+				d, _ := json.Marshal(map[string]string{id: "P"})
+				out, err := jsCallTemplate(vm, "idn.t", string(d), "")
+				if err != nil {
+					got = "call error: " + err.Error()
+				} else {
+					got = out
+				}
+			}
+			c.Observe(key, got)
+			if got != want {
+				c.Violate("the generated JavaScript is a syntactically valid script whose identifiers denote the template's variables", "mismatch", "ident:"+form+":"+identClass(id), cs, want, got)
+			}
+			if err := jsParses(es6ToScript(es6["i.soy"])); err != nil {
+				c.Violate("the ES6 output is syntactically valid", "mismatch", "ident-es6:"+form+":"+identClass(id), cs, "valid", err.Error())
+			}
+		}
+	}
 	// ---- Part 3: every bundle of the C02 grammar (no common-subset filter): syntax and functions ----
 	lib := libFiles()
 	nb := 0
@@ -344,4 +417,14 @@ func litClass(L string) string {
 		cls += " non-ascii"
 	}
 	return strings.TrimSpace(cls)
+}
+
+func identClass(id string) string {
+	switch id {
+	case "output", "opt_data", "opt_ijData", "opt_sb", "opt_ignored", "soy", "goog", "data", "ijData", "msg", "msg_s", "MSG_UNNAMED", "x1", "output1":
+		return "generator name"
+	case "self", "window", "Object", "String", "Array", "arguments", "eval", "NaN", "Infinity", "undefined":
+		return "global name"
+	}
+	return "reserved word"
 }
